@@ -117,7 +117,7 @@ Definition metrics_doc (m : metrics) : option json :=
 Definition ukey_string (k : ukey) : string :=
   match k with KAll => "all" | KMonth n => string_of_Z n | KText s => s end.
 
-Definition ct_to_doc (s : ct_state) : option json :=
+Definition ct_to_doc_objects (s : ct_state) : option json :=
   do segs <- opt_all (map seg_doc (ct_segments s));
   do lk <- lookup_doc (ct_segments s) (ct_mapping s);
   do ws <- warns_doc (ct_warnings s);
@@ -177,8 +177,9 @@ Definition segment_info (segment_type : string) : option (string * option (list 
   else if String.eqb segment_type "three_month_weighted" then Some ("one_month", Some month_mapping)
   else None.
 
-(* how the keys of unc_vars are read back: as coded (kept as the strings json produced), or repaired
-   (proposed patch C01-2.diff: digits become the month number again) *)
+(* how the keys of unc_vars are read back: repaired = true is the code as it is (since /repo f37e6233: digits become
+   the month number again); false is the reader before that commit, which kept the strings json produced
+   (regression witness) *)
 Definition read_ukey (repaired : bool) (k : string) : ukey :=
   if String.eqb k "all" then KAll
   else if repaired then match Z_of_string k with Some n => KMonth n | None => KText k end
@@ -213,11 +214,12 @@ Definition ct_from_doc_gen (repaired : bool) (d : json) : option ct_state :=
           ct_unc := map (fun kv => (read_ukey repaired (fst kv), snd kv)) unc;
           ct_warnings := ws; ct_metadata := md; ct_settings := st; ct_totals := tm; ct_avgs := am |}.
 
-Definition ct_from_doc := ct_from_doc_gen false.
-Definition ct_from_doc_repaired := ct_from_doc_gen true.
+Definition ct_from_doc_before_f37e6233 := ct_from_doc_gen false.
+Definition ct_from_doc := ct_from_doc_gen true.
 
-(* the serialiser of the proposed repair (C01-3.diff): reloaded warnings (plain dicts) and reloaded metrics
-   (ModelMetricsFromJson) write themselves back *)
+(* to_dict as coded (since /repo 3d0f44c1): reloaded warnings (plain dicts) and reloaded metrics
+   (ModelMetricsFromJson) write themselves back.  [ct_to_doc_objects] above is the serialiser before that commit,
+   which needs objects with a .json() (regression witness). *)
 Definition relax_warns (w : warns) : warns :=
   match w with WRaw l => match opt_all (map parse_warning l) with Some t => WTyped t | None => w end | _ => w end.
 Definition relax_metrics (m : metrics) : metrics := match m with MReloaded l => MNative l | _ => m end.
@@ -230,7 +232,7 @@ Definition relax (s : ct_state) : ct_state :=
      ct_segment_type := ct_segment_type s; ct_unc := ct_unc s; ct_warnings := relax_warns (ct_warnings s);
      ct_metadata := ct_metadata s; ct_settings := ct_settings s;
      ct_totals := relax_metrics (ct_totals s); ct_avgs := relax_metrics (ct_avgs s) |}.
-Definition ct_to_doc_repaired (s : ct_state) : option json := ct_to_doc (relax s).
+Definition ct_to_doc (s : ct_state) : option json := ct_to_doc_objects (relax s).
 
 (* ---------------------------------------------------------------- what predict reads *)
 
